@@ -719,9 +719,11 @@ package orda
 
 //@ func (*document).PutToObject
 //@   mode math
-//@   props C03
+//@   props C03 C19
 //@   requires docAPI(its) && docTxOK(its)
 //@   ensures[a-null-value-is-refused] value == nil ==> result1 != nil
+//@   ensures[an-accepted-put-is-issued-as-one-operation] result1 == nil ==> G.sentences == old(G.sentences) + 1
+//@   ensures[a-refused-put-by-its-arguments-issues-nothing] value == nil || !old(its.SnapshotDatatype.Snapshot.(*jsonObject)) ==> G.sentences == old(G.sentences)
 //@   ensures[the-wrong-kind-of-container-is-refused] !old(its.SnapshotDatatype.Snapshot.(*jsonObject)) ==> result1 != nil
 //@   ensures[a-deleted-container-is-refused] old(garbageP(primOf(its.SnapshotDatatype.Snapshot.(as jsonType)))) ==> result1 != nil
 //@   modifies *
